@@ -1008,9 +1008,15 @@ func callBuiltin(caller *frame, callpos token.Pos, fn *ssa.Builtin, args []value
 		case string, symStr:
 			// append([]byte, ...string) []byte
 			arg0 := args[0].([]value)
+			if len(arg0)+strLen(s) <= cap(arg0) && strLen(s) > 0 {
+				i.publishedArrWrite(arg0, "append")
+			}
 			return append(arg0, strBytes(s)...)
 		}
 		// append([]T, ...[]T) []T
+		if a0, a1 := args[0].([]value), args[1].([]value); len(a1) > 0 && len(a0)+len(a1) <= cap(a0) {
+			i.publishedArrWrite(a0, "append")
+		}
 		return append(args[0].([]value), args[1].([]value)...)
 
 	case "copy": // copy([]T, []T) int or copy([]byte, string) int
@@ -1018,6 +1024,9 @@ func callBuiltin(caller *frame, callpos token.Pos, fn *ssa.Builtin, args []value
 		switch s := src.(type) {
 		case string, symStr:
 			src = strBytes(s)
+		}
+		if len(src.([]value)) > 0 && len(args[0].([]value)) > 0 {
+			i.publishedArrWrite(args[0].([]value), "copy")
 		}
 		return copy(args[0].([]value), src.([]value))
 
@@ -1027,6 +1036,7 @@ func callBuiltin(caller *frame, callpos token.Pos, fn *ssa.Builtin, args []value
 
 	case "delete": // delete(map[K]value, K)
 		i.guardCheck(args[0].(*gmap), true, "delete")
+		i.publishedWrite(args[0].(*gmap), "delete")
 		args[0].(*gmap).delete(i, args[1])
 		return nil
 
